@@ -541,7 +541,7 @@ func (g *instGen) mutate(in *instance, kind string, app, tr *datadictionary.Data
 		var tag int
 		var val string
 		if kind == "not_in_dictionary" {
-			tag = []int{4990, 4995, 9001, 20000}[r.intn(4)]
+			tag = []int{4990, 4999, 5000, 5001, 9001, 20000}[r.intn(6)]
 			for {
 				_, a := bodyDD.FieldTypeByTag[tag]
 				_, b := hdrDD.FieldTypeByTag[tag]
@@ -692,7 +692,7 @@ func (g *instGen) mutate(in *instance, kind string, app, tr *datadictionary.Data
 		return planted{kind, u.fields[0].tag, "-"}, true
 	case "duplicate_tolerated":
 		// a tag the settings tolerate (unknown to the dictionary, or user-defined) appearing twice: still a duplicate
-		tag := []int{4990, 4995, 9001, 20000}[r.intn(4)]
+		tag := []int{4990, 4999, 5000, 5001, 9001, 20000}[r.intn(6)]
 		for {
 			_, a := bodyDD.FieldTypeByTag[tag]
 			_, b := hdrDD.FieldTypeByTag[tag]
